@@ -17,8 +17,11 @@ CONSTANTS N,                \* number of members
           ExitOnException,  \* PortfolioOptions.exit_on_exception
           DetectAllFailed,  \* TRUE = repaired code (raises when nobody can answer), FALSE = pinned code
           Rounds,           \* consecutive solve() calls on the same Portfolio object
-          FreshQueuePerSolve \* TRUE = the code: every solve() creates its own signalling queue;
+          FreshQueuePerSolve, \* TRUE = the code: every solve() creates its own signalling queue;
                              \* FALSE = one queue for the object's life (a loser's late message survives)
+          CacheModelByWinner \* FALSE = the code: get_model() asks the kept process every time;
+                             \* TRUE = a design alternative that keeps the model first fetched from a member and
+                             \* hands it out again whenever that member wins (stale after the next solve)
 
 Members == 1..N
 Behaviours == {"ans", "exc", "crash_pre", "crash_post"}
@@ -32,19 +35,22 @@ VARIABLES beh, verdictOf,       \* member behaviour; the common verdict of answe
           winner, returned,     \* chosen member / verdict returned by solve (or "none")
           killIdx,              \* next member of the terminate loop
           ctrl, reply,          \* control pipe (parent -> members) and reply channel
-          served                \* member that consumed the control command (0 = none)
+          served,               \* member that consumed the control command (0 = none)
+          modelRound,           \* the solve() whose model get_model() handed to the client (0 = none yet in this round)
+          cache                 \* member -> round of the model kept for it (0 = none); only used if CacheModelByWinner
 
-vars == <<beh, verdictOf, ppc, cpc, queue, round, failed, winner, returned, killIdx, ctrl, reply, served>>
+vars == <<beh, verdictOf, ppc, cpc, queue, round, failed, winner, returned, killIdx, ctrl, reply, served, modelRound, cache>>
 
 Init == /\ beh \in [Members -> Behaviours]
         /\ verdictOf \in {"sat", "unsat"}
         /\ ppc = "spawn" /\ cpc = [i \in Members |-> "solving"]
         /\ queue = <<>> /\ round = 1 /\ failed = 0 /\ winner = 0 /\ returned = "none" /\ killIdx = 1
         /\ ctrl = <<>> /\ reply = <<>> /\ served = 0
+        /\ modelRound = 0 /\ cache = [i \in Members |-> 0]
 
 \* ---- parent
 Spawn == ppc = "spawn" /\ ppc' = "wait"
-         /\ UNCHANGED <<round, beh, verdictOf, cpc, queue, failed, winner, returned, killIdx, ctrl, reply, served>>
+         /\ UNCHANGED <<round, beh, verdictOf, cpc, queue, failed, winner, returned, killIdx, ctrl, reply, served, modelRound, cache>>
 
 QueueGet ==
     /\ ppc = "wait" /\ queue # <<>>
@@ -59,7 +65,7 @@ QueueGet ==
                     /\ UNCHANGED <<cpc, winner, returned>>
           ELSE /\ winner' = msg[1] /\ returned' = msg[3] /\ ppc' = "kill"
                /\ UNCHANGED <<cpc, failed>>
-    /\ UNCHANGED <<round, beh, verdictOf, killIdx, ctrl, reply, served>>
+    /\ UNCHANGED <<round, beh, verdictOf, killIdx, ctrl, reply, served, modelRound, cache>>
 
 \* the repair: the blocking get has a timeout; when it expires with an empty queue and no live
 \* member, nobody can answer any more
@@ -67,27 +73,32 @@ PollDead ==
     /\ DetectAllFailed /\ ppc = "wait" /\ queue = <<>>
     /\ \A i \in Members : cpc[i] = "dead"
     /\ ppc' = "raised"
-    /\ UNCHANGED <<round, beh, verdictOf, cpc, queue, failed, winner, returned, killIdx, ctrl, reply, served>>
+    /\ UNCHANGED <<round, beh, verdictOf, cpc, queue, failed, winner, returned, killIdx, ctrl, reply, served, modelRound, cache>>
 
 Terminate ==    \* for p in processes: winner is kept, every other process is terminated
     /\ ppc = "kill"
     /\ IF killIdx > N THEN ppc' = "idle" /\ UNCHANGED <<cpc, killIdx>>
        ELSE /\ killIdx' = killIdx + 1 /\ ppc' = "kill"
             /\ cpc' = IF killIdx = winner THEN cpc ELSE [cpc EXCEPT ![killIdx] = "dead"]
-    /\ UNCHANGED <<round, beh, verdictOf, queue, failed, winner, returned, ctrl, reply, served>>
+    /\ UNCHANGED <<round, beh, verdictOf, queue, failed, winner, returned, ctrl, reply, served, modelRound, cache>>
 
 SendCtrl ==     \* get_model() / get_value() after solve returned
     /\ ppc = "idle" /\ returned = "sat"
-    /\ ctrl' = Append(ctrl, "get_model") /\ ppc' = "sent"
-    /\ UNCHANGED <<round, beh, verdictOf, cpc, queue, failed, winner, returned, killIdx, reply, served>>
+    /\ IF CacheModelByWinner /\ cache[winner] # 0
+       THEN \* the alternative: the kept model of this member is handed out without asking
+            /\ modelRound' = cache[winner] /\ ppc' = "done" /\ UNCHANGED ctrl
+       ELSE /\ ctrl' = Append(ctrl, "get_model") /\ ppc' = "sent" /\ UNCHANGED modelRound
+    /\ UNCHANGED <<round, beh, verdictOf, cpc, queue, failed, winner, returned, killIdx, reply, served, cache>>
 
 RecvReply ==
     /\ ppc = "sent" /\ reply # <<>>
     /\ reply' = Tail(reply) /\ ppc' = "done"
+    /\ modelRound' = Head(reply)[2]
+    /\ cache' = IF CacheModelByWinner /\ cache[Head(reply)[1]] = 0 THEN [cache EXCEPT ![Head(reply)[1]] = Head(reply)[2]] ELSE cache
     /\ UNCHANGED <<round, beh, verdictOf, cpc, queue, failed, winner, returned, killIdx, ctrl, served>>
 
 NoModelWanted == ppc = "idle" /\ returned # "sat" /\ ppc' = "done"
-                 /\ UNCHANGED <<round, beh, verdictOf, cpc, queue, failed, winner, returned, killIdx, ctrl, reply, served>>
+                 /\ UNCHANGED <<round, beh, verdictOf, cpc, queue, failed, winner, returned, killIdx, ctrl, reply, served, modelRound, cache>>
 
 \* the next solve() on the same object: _close_existing() terminates the kept process, the assertions
 \* may have changed (the verdict is chosen afresh), new member processes are started
@@ -98,32 +109,32 @@ Resolve ==
     /\ cpc' = [i \in Members |-> "solving"]
     /\ queue' = IF FreshQueuePerSolve THEN <<>> ELSE queue
     /\ failed' = 0 /\ winner' = 0 /\ returned' = "none" /\ killIdx' = 1
-    /\ ctrl' = <<>> /\ reply' = <<>> /\ served' = 0
-    /\ UNCHANGED beh
+    /\ ctrl' = <<>> /\ reply' = <<>> /\ served' = 0 /\ modelRound' = 0
+    /\ UNCHANGED <<beh, cache>>
 
 \* ---- members
 PutResult(i) ==
     /\ cpc[i] = "solving" /\ beh[i] \in {"ans", "crash_post"}
     /\ queue' = Append(queue, <<i, "res", verdictOf>>)
     /\ cpc' = [cpc EXCEPT ![i] = IF beh[i] = "ans" THEN "parked" ELSE "dead"]
-    /\ UNCHANGED <<round, beh, verdictOf, ppc, failed, winner, returned, killIdx, ctrl, reply, served>>
+    /\ UNCHANGED <<round, beh, verdictOf, ppc, failed, winner, returned, killIdx, ctrl, reply, served, modelRound, cache>>
 
 PutException(i) ==
     /\ cpc[i] = "solving" /\ beh[i] = "exc"
     /\ queue' = Append(queue, <<i, "exc", verdictOf>>)
     /\ cpc' = [cpc EXCEPT ![i] = "dead"]
-    /\ UNCHANGED <<round, beh, verdictOf, ppc, failed, winner, returned, killIdx, ctrl, reply, served>>
+    /\ UNCHANGED <<round, beh, verdictOf, ppc, failed, winner, returned, killIdx, ctrl, reply, served, modelRound, cache>>
 
 Crash(i) ==
     /\ cpc[i] = "solving" /\ beh[i] = "crash_pre"
     /\ cpc' = [cpc EXCEPT ![i] = "dead"]
-    /\ UNCHANGED <<round, beh, verdictOf, ppc, queue, failed, winner, returned, killIdx, ctrl, reply, served>>
+    /\ UNCHANGED <<round, beh, verdictOf, ppc, queue, failed, winner, returned, killIdx, ctrl, reply, served, modelRound, cache>>
 
 RecvCmd(i) ==   \* any parked member may read the shared pipe
     /\ cpc[i] = "parked" /\ ctrl # <<>>
     /\ ctrl' = Tail(ctrl) /\ served' = i
-    /\ reply' = Append(reply, i)
-    /\ UNCHANGED <<round, beh, verdictOf, ppc, cpc, queue, failed, winner, returned, killIdx>>
+    /\ reply' = Append(reply, <<i, round>>)        \* the member's model is the one of the solve it answered
+    /\ UNCHANGED <<round, beh, verdictOf, ppc, cpc, queue, failed, winner, returned, killIdx, modelRound, cache>>
 
 Next == Spawn \/ QueueGet \/ PollDead \/ Terminate \/ SendCtrl \/ RecvReply \/ NoModelWanted \/ Resolve
         \/ \E i \in Members : PutResult(i) \/ PutException(i) \/ Crash(i) \/ RecvCmd(i)
@@ -135,6 +146,8 @@ SomeoneAnswers == \E i \in Members : beh[i] \in {"ans", "crash_post"}
 Agreement == returned # "none" => returned = verdictOf
 RaisesOnlyIfNobodyAnswered == (ppc = "raised" /\ ~ExitOnException) => ~SomeoneAnswers
 NoLoserConsumesCtrl == served # 0 => served = winner
+\* the model the client is handed belongs to the solve() it was asked after
+ModelIsCurrent == modelRound # 0 => modelRound = round
 SolveReturns == \A r \in 1..Rounds : (round = r /\ ppc = "spawn") ~> (round = r /\ ppc \in {"idle", "sent", "done", "raised"})
 \* as long as one member answers, failing members never change the verdict
 AnswerIfSomeoneAnswers == \A r \in 1..Rounds :
